@@ -664,6 +664,14 @@ func runC05(c *config) {
 		{"@g = external global %nope\n", "", "Err"},
 		{"define void @f() {\n\t%x = add i32 %y, 1\n\tret void\n}\n", "", "Err"},
 		{"define void @f() {\n\tret void\n}\nuselistorder_bb @f, %nope, { 1, 0 }\n", "", "Err"},
+		// the local %0 defined twice; the number 0 on a later value; a numbered parameter of a declaration (KF-42, repaired)
+		{"define i32 @f(i32 %x) {\nentry:\n\t%0 = add i32 %x, 1\n\t%0 = add i32 %x, 2\n\tret i32 %0\n}\n", "", "Err"},
+		{"define i32 @f(i32 %x) {\n\t%0 = add i32 %x, 1\n\tret i32 %0\n}\n", "", "Err"},
+		{"define void @f(i32, i32 %0) {\n\tret void\n}\n", "", "Err"},
+		{"define void @f(i32) {\n0:\n\tret void\n}\n", "", "Err"},
+		{"declare void @f(i32 %5)\n", "", "Err"},
+		{"define i32 @f(i32 %x) {\nentry:\n\t%0 = add i32 %x, 1\n\tret i32 %0\n}\n", "", "Ok"},
+		{"define void @f(i32 %x, i32 %0) {\n\tret void\n}\n", "", "Ok"},
 	} {
 		_, oc, msg := parseGuard(h.src)
 		o.Stat("fault.handwritten")
